@@ -157,6 +157,21 @@ def run_config(cfg, mode):
     pr = random.Random(cfg["perturb"])
     clock = None
     keep = []
+    bound_model = None
+    if cfg.get("model") == "river_bound":
+        from river.naive_bayes import GaussianNB
+        clf = GaussianNB()
+        for t in range(1, 46):                       # deterministic training; labels appear progressively
+            xx, _ = row(cfg, 50000 + t)
+            v = float(xx[names[-1]])
+            clf.learn_one(xx, "A" if v < 0.8 else ("B" if (v < 1.6 or t < 15) else "C"))
+        bound_model = clf.predict_one
+        if mode == "B":
+            # another explainer was created on the same model object and used before (it only predicts)
+            other = IncrementalSage(bound_model, label_loss, names, dynamic_setting=False)
+            for t in range(1, 14):
+                xx, _ = row(cfg, 60000 + t)
+                other.explain_one(xx, "ABC"[t % 3])
     if mode == "B":
         pre_activity(cfg["perturb"])
         keep.append(churn(pr))
@@ -171,6 +186,10 @@ def run_config(cfg, mode):
         if cfg.get("model") == "riverlabel":
             stub = LabelStub(names, cfg["stream"])
             model = RiverWrapper(stub.predict_one)
+            loss_fn = label_loss
+        elif cfg.get("model") == "river_bound":
+            # a REAL river classifier handed over as a bare bound method (`clf.predict_one`): the library wraps it itself
+            model = bound_model
             loss_fn = label_loss
         storage = make_storage(cfg)
         ik = cfg.get("imputer")
@@ -210,6 +229,8 @@ def run_config(cfg, mode):
             if stub is not None:
                 stub.t = t
                 y = "L%d" % (H(cfg["stream"], "yl", t) % 3)
+            elif bound_model is not None:
+                y = "ABC"[H(cfg["stream"], "yl", t) % 3]
             if mode == "B":
                 retained.append(x)      # object identities: in A observations die young (addresses are reused),
                                         # in B every observation object stays alive (all identities distinct)
